@@ -103,7 +103,7 @@ def shrink(ctx, bins, f):
 
 def run(ctx, ops=None):
     vlib.regen(ctx, C06_syms.NAMESPACE, C06_syms.SYMS)
-    obligations, discharged = vlib.standard_proof_steps(ctx)
+    obligations, discharged = vlib.standard_proof_steps(ctx, extra_props=["GilVerif.Props.C06Float"])
     bins = parcorr.compile_parallel(ctx, [dict(src_rel="harness/C06/main.cpp", name="C06_g%d" % g,
                                                defines=["C06_GROUP=%d" % g, "C06_NGROUPS=%d" % NGROUPS]) for g in range(NGROUPS)])
     samples, distinct, values = [], 0, 0
